@@ -287,6 +287,19 @@ def run(ctx):
         for k, v in ref.items():
             if k in got and got[k] != v:
                 ob5.refute("burst-length:%s" % k, "burst length of %s is %s in common.burst_lengths, JEDEC value %d" % (k, got[k], v), None)
+    ob6 = ctx.ob("C06.6", "the rank part of the address selects the chip select on the bus: a command that issues on a phase selects exactly the rank its bank address "
+                          "names, and the DFI bank field carries the remaining bits (shared with C02.6, truth table of the extracted steerer)", 2)
+    from ..report import Ctx as _Ctx
+    from . import c02 as _c02
+    _sub = _Ctx("C02", ctx.tier, ctx.seed, ctx.repo)
+    _c02.rank_decode(_sub)
+    for _o in _sub.obligations:
+        for _i in _o.instances:
+            ob6.instance(_o.oid + ": " + _i["what"], _i["detail"] or "ok")
+        for _r in _o.refutations:
+            ob6.refute(_o.oid + ":" + _r["key"], _r["msg"], _r.get("loc"))
+        for _u in _o.unknowns:
+            ob6.unknown(_u)
 
 
 def _fmt(v):
@@ -299,3 +312,4 @@ def _fmt(v):
         else:
             out.append("a%d" % b[1])
     return " ".join(out)
+
